@@ -145,7 +145,7 @@ MatchC(x, e) ==
              \/ x.hds[h].ctx # o.hds[h].ctx \/ x.hds[h].next # o.hds[h].next
              \/ [i \in 1..Len(x.hds[h].pend) |-> x.hds[h].pend[i].bi] # o.hds[h].pend
        THEN "handler-state"
-  ELSE IF x.ret # e.ret THEN "returned-meta"
+  ELSE IF x.ret # e.ret \/ (Len(e.ret) = 3 /\ e.mbi # e.ret[1]) THEN "returned-meta"
   ELSE "ok"
 InvNamesC == <<"inv-given-batch-size-is-kept", "inv-context-agrees-with-its-pool", "inv-submission-index-below-num-submissions">>
 HoldsC(k, w, x, b) ==
